@@ -65,6 +65,15 @@ def spline_T(draw, min_gap=0.5, min_n=2, max_n=8, z_lo=None):
         logk[1] = logk[0]  # a segment of constant conductivity (slope 0)
     K = [float('{:.6g}'.format(10.0 ** e)) for e in logk]
     tmin = float('{:.6g}'.format(10.0 ** draw(st.floats(-3.0, 2.0))))
+    typing = draw(st.sampled_from(['float', 'float', 'int-min', 'int-all']))
+    if typing != 'float':
+        # a parameter file may spell whole numbers without a decimal point
+        # (YAML then yields Python ints)
+        tmin = draw(st.integers(1, 100))
+    if typing == 'int-all':
+        K = [max(1, int(round(k))) for k in K]
+        z = [int(round(v)) for v in z]
+        z = [v + i for i, v in enumerate(z)]  # keep strictly increasing
     return {'type': 'spline', 'zeta_knots_mm': z, 'K_knots_km_d': K,
             'minimum_transmissivity_m2_d': tmin}
 
